@@ -104,4 +104,13 @@ func init() {
 	variant(Variant{"C20", "cached-range-marked-beyond-its-end", "server/backend/database/mongo/changestore.go", "\t\tend := min(fr.To, to)", "\t\tend := max(fr.To, to)", "CS.ensure"})
 	variant(Variant{"C07", "moved-slot-liveness-after-insertion", crdt + "rga_tree_list.go", "\tnode := newBarePositionNode(posCreatedAt)\n\tnode.elementEntry = entry\n\tentry.positionNode = node\n\n\tprevNode := a.last\n\tinsertNodeAfter(prevNode, node)\n\ta.last = node\n\n\ta.nodeMapByIndex.InsertAfter(prevNode.indexNode, node.indexNode)\n", "\tnode := newBarePositionNode(posCreatedAt)\n\n\tprevNode := a.last\n\tinsertNodeAfter(prevNode, node)\n\ta.last = node\n\n\ta.nodeMapByIndex.InsertAfter(prevNode.indexNode, node.indexNode)\n\tnode.elementEntry = entry\n\tentry.positionNode = node\n", "W.live"})
 	variant(Variant{"C09", "primitive-operand-without-type", "api/converter/to_pb.go", "\tcase *crdt.Counter:\n\t\tpbCounterType, err := toCounterType(elem.ValueType())\n\t\tif err != nil {\n\t\t\treturn nil, err\n\t\t}\n\t\tcounterValue, err := elem.Bytes()", "\tcase *crdt.Counter:\n\t\tpbCounterType, err := toCounterType(crdt.IntegerCnt)\n\t\tif err != nil {\n\t\t\treturn nil, err\n\t\t}\n\t\tcounterValue, err := elem.Bytes()", "S3.value"})
+	variant(Variant{"C09", "zstd-header-not-stripped", "server/backend/database/snapshot_encoding.go", "dec.DecodeAll(data[1:], nil)", "dec.DecodeAll(data, nil)", "Z.snap"})
+	variant(Variant{"C09", "legacy-snapshot-dropped", "server/backend/database/snapshot_encoding.go", "\tif data[0] != SnapshotFormatZstd {\n\t\treturn data, nil\n\t}", "\tif data[0] != SnapshotFormatZstd {\n\t\treturn nil, nil\n\t}", "Z.snap"})
+	variant(Variant{"C02", "external-body-flag-off-by-one", memdb, "\t\tHasExternalBody: hasExternalBody,\n\t\tCreatedAt:       gotime.Now(),\n\t}); err != nil {\n\t\treturn fmt.Errorf(\"create snapshot of", "\t\tHasExternalBody: len(compressed) >= database.SnapshotBodyThreshold,\n\t\tCreatedAt:       gotime.Now(),\n\t}); err != nil {\n\t\treturn fmt.Errorf(\"create snapshot of", "Z.snap"})
+	variant(Variant{"C14", "retombstone-removed-pieces-too", crdt + "rga_tree_split.go", "\t\tfor _, piece := range pieces {\n\t\t\tif piece.removedAt != nil {\n\t\t\t\tcontinue\n\t\t\t}\n\t\t\tpieceStart := piece.ID().Offset()", "\t\tfor _, piece := range pieces {\n\t\t\tpieceStart := piece.ID().Offset()", "RST"})
+	variant(Variant{"C14", "tree-restore-revives-live-pieces", crdt + "tree.go", "\t\t\t\tif target.IsRemoved() {\n\t\t\t\t\ttarget.unremove()\n\t\t\t\t\tuntombstoned = append(untombstoned, target)\n\t\t\t\t}\n\t\t\t\tcursor = overlapEnd", "\t\t\t\ttarget.unremove()\n\t\t\t\tuntombstoned = append(untombstoned, target)\n\t\t\t\tcursor = overlapEnd", "RST"})
+	variant(Variant{"C14", "recreated-text-under-undo-ticket", crdt + "rga_tree_split.go", "\t\t\t\t\tNewRGATreeSplitNodeID(span.createdAt, cursor), val)", "\t\t\t\t\tNewRGATreeSplitNodeID(executedAt, cursor), val)", "RST"})
+	variant(Variant{"C12", "detach-pack-before-clear", "client/client.go", "\tif err := d.Update(func(r *json.Object, p *document.Presence) error {\n\t\tp.Clear()\n\t\treturn nil\n\t}); err != nil {\n\t\treturn err\n\t}\n\n\tpbChangePack, err := converter.ToChangePack(d.CreateChangePack())", "\tpbChangePack, err := converter.ToChangePack(d.CreateChangePack())\n\tif err := d.Update(func(r *json.Object, p *document.Presence) error {\n\t\tp.Clear()\n\t\treturn nil\n\t}); err != nil {\n\t\treturn err\n\t}", "P.client"})
+	variant(Variant{"C07", "treelist-rotation-recompute-order", "pkg/treelist/treelist.go", "\tupdateNode(node)\n\tupdateNode(right)\n\treturn right", "\tupdateNode(right)\n\tupdateNode(node)\n\treturn right", "W.treelist"})
+	variant(Variant{"C07", "treelist-insert-by-live-weight", "pkg/treelist/treelist.go", "\tif index <= node.leftCount() {\n\t\tnode.left = t.insertByCount(node.left, index, newNode)", "\tif index <= node.leftWeight() {\n\t\tnode.left = t.insertByCount(node.left, index, newNode)", "W.treelist"})
 }
